@@ -1,7 +1,7 @@
 PROP = {
     'level': 'proof',
     'coq': ['Properties/C13.v'],
-    'coq_gen': [],
+    'coq_gen': ['Properties/C13_gen.v'],
     'rule': ("selection: real updateBest through the VerifUpdateBest hook on mock connections vs the model and vs the "
              "property statement as a Go oracle: empty pool, exhaustive n=1,2 over alive x seqno{0,1,2,3,2^32-2,2^32-1} x "
              "rtt{1,2,3} x 3 strategies x every previous choice, sampled n=3,4 from the grid, up to 8 connections with heads "
@@ -11,19 +11,32 @@ PROP = {
              "blocked-after-250ms observation, on the real subscribe/notifySubscribers/unsubscribe/updateBest/SetMasterHead "
              "with real connection objects wrapped for IsOK/RTT, vs the LTS model: hand-written scenarios incl. the schedules "
              "of the repaired deadlocks, bursts against the 10-slot buffer, best-connection switches with an unconsumed head, "
-             "random interleavings (1..3 connections, 1..3 waiters, 3 strategies, full channels, one blocked publisher). The "
+             "random interleavings (1..3 connections, 1..3 waiters, 3 strategies, full channels, one blocked publisher), and the "
+             "first waiter of a pool's lifetime kept waiting while callers satisfied at once subscribe, receive and run their "
+             "unsubscribe with the id they were given (fresh pool, head 0..3, 1..2 such callers) before its head arrives. The "
              "real WaitMasterchainSeqno under the real Run loop (c13.wait): result nil/timeout/cancel vs model, latency oracle "
-             "(success early, timeout not before and not long after the deadline). Regression oracles for the four repaired "
-             "defects (c13.repro). A class is (kind, family, strategy/size bucket, outcome)."),
+             "(success early, timeout not before and not long after the deadline), also with two concurrent callers (first waiter "
+             "waiting + caller satisfied at once + head arrives; oracle: each caller's verdict is what the best connection's heads "
+             "demand). Regression oracles for the four repaired defects and a 1.5 s stress under the real Run loop (publisher + 8 "
+             "callers with 20 ms timeouts + updateBest every 20 ms, watchdog 5 s, key pool-stuck) (c13.repro). Source obligations "
+             "(C13_gen.v over the go/ast translation of liteapi/pool): no method calls, while holding its receiver's lock, a method "
+             "that takes that lock (transitively); lock kinds and call structure are those of the model; the only blocking send "
+             "under a lock is subscribe's into its own fresh channel. A class is (kind, family, strategy/size bucket, outcome)."),
     'explanation': ("coq/Properties/C13.v, for the model of the repaired liteapi/pool: update_best returns, for every pool, "
                     "strategy and previous choice, exactly the choice the property prescribes among the alive connections at "
                     "most one block behind the newest head (else the previous choice); over all interleavings of any number of "
                     "connections, waiters and head updates: a waiter returns nil iff it received a head >= its target that was "
                     "published for the then-best connection, a sufficient head sent to a waiting caller is never lost, a "
                     "notification reaches every registered waiter, timeout/cancel is always enabled and a caller that left "
-                    "its loop returns; the holder of the pool lock always has an enabled step and frees the lock by its own "
-                    "moves, Run always gets back to its select, a SetMasterHead waiting for buffer space completes."),
-    'assumptions': ["the LTS abstracts the Go scheduler: atomic steps are critical sections without blocking operations; Go's writer-preferring RWMutex only removes interleavings",
+                    "its loop returns; ids: a registered waiter's id is never 0 (what subscribe returns to a satisfied caller), the "
+                    "unsubscribe of a satisfied caller removes nobody, an unsubscribe removes exactly the caller's own registration, "
+                    "a registered waiter stays registered until then and gets every notified head; the pool lock is modelled with "
+                    "Go's writer preference and two-step write acquisition: no goroutine asks for p.mu while holding it, the holder "
+                    "always has an enabled step, the lock is freed and the announced writer served by the pool's own moves, Run "
+                    "always gets back to its select, a SetMasterHead waiting for buffer space completes; the variant of "
+                    "notifySubscribers that re-acquires RLock is refuted (permanent deadlock). coq/Properties/C13_gen.v re-checks "
+                    "the absence of lock re-acquisition and of blocking sends under a lock on today's source."),
+    'assumptions': ["the LTS abstracts the Go scheduler: atomic steps are critical sections without blocking operations and without lock acquisitions (both re-checked syntactically on the source by C13_gen.v); sync.RWMutex is modelled as writer-preferring with one announced writer at a time",
                     "updateBest reads the heads one by one, the model at once (the comparison is monotone in a connection's head)",
                     "'the best connection reports a head' = Run handles an update whose connection id equals bestConn's; a switch of bestConn does not wake waiters (observation)",
                     "pools without connections (subscribe dereferences nil bestConn) are outside the quantifier (1..4 connections); proved impossible with >= 1 connection",
@@ -46,6 +59,8 @@ META = {
     'note': ("Four defects repaired in liteapi/pool (uint32 wrap in the selection; blocking send under RLock; send under the "
              "connection lock; timeout timer re-armed per head); their models and witnesses are kept in coq/Proofs/PoolHistory.v "
              "and corpus/C13. Trusted: Coq kernel, extraction, drivers, Go harness, the LTS abstraction of the Go scheduler "
-             "(atomicity of non-blocking critical sections). Timing, data races and goroutine scheduling are exercised, not proved."),
+             "(atomicity of critical sections, which C13_gen.v re-checks to contain neither an acquisition of the same lock nor a "
+             "blocking send; sync.RWMutex as a writer-preferring lock). Timing, data races and goroutine scheduling are exercised "
+             "(incl. a stress run under the real Run loop), not proved."),
     'technique': 'Coq: functional model + LTS with invariants by induction over reachability; exhaustive-grid and step-replay correspondence with the extracted model',
 }
